@@ -4,6 +4,7 @@ from vlib import xhex, rnd_bytes
 from props.codec_common import *
 
 THEOREMS = ["C04_primary", "C04_canonical", "C04_bundle_layout", "C04_fresh_passes"]
+RELEASE = True          # debug and release builds of the harness (debug_assert!, overflow checks, cfg(debug_assertions))
 RULE = ("CRC16/CRC32 on raw strings (lengths 0-300; random, all-zero, all-ones) against the crc-crate instances bp7 exports; RT "
         "<bundle> with every prior CRC state per block (absent, empty placeholder, stale value of either width): the CRC bytes on "
         "the wire are recomputed by the Python reference over the zero-filled block; RTV <bundle>: the library's own crc_valid on the bundle just "
@@ -36,6 +37,9 @@ def cases(rng, tier):
         out.append("RT " + genb.show_bundle(b))
         if rng.random() < 0.5:
             out.append("RTV " + genb.show_bundle(genb.reorder(rng, b)))
+    # one thread encodes a bundle and then a sibling with the same identity but other primary fields (and the first one again)
+    out += pair_lines(rng, 300 if tier == "quick" else 30000, lambda b: "RT " + genb.show_bundle(b))
+    out += pair_lines(rng, 150 if tier == "quick" else 15000, lambda b: "RTV " + genb.show_bundle(b))
     return out
 
 
